@@ -31,3 +31,21 @@ func TestVerif_C01_Regress_StaleInterval(t *testing.T) {
 		t.Fatalf("Reverse(%d) = %d, the packet sent under that number was %d", last-2, src, last-1)
 	}
 }
+
+// D10 / C04:drop-disabled-top-eighth: a stream whose first seqno lies in
+// 57345..65535 must be droppable from its second packet on, and the
+// picture-id shift of the first drop must be relative to the previous
+// packet, not to 0.
+func TestVerif_C04_Regress_FirstSeqnoTopEighth(t *testing.T) {
+	for _, first := range []uint16{57345, 60000, 65535, 0, 1, 32768, 57344} {
+		m := &Map{}
+		m.Map(first, 500)
+		if !m.Drop(first+1, 501) {
+			t.Fatalf("first seqno %d: in-order Drop refused", first)
+		}
+		ok, out, pd := m.Map(first+2, 502)
+		if !ok || out != first+1 || pd != 1 {
+			t.Fatalf("first seqno %d: Map after drop = %v %d piddelta %d, want %d and 1", first, ok, out, pd, first+1)
+		}
+	}
+}
